@@ -107,11 +107,17 @@ let dump_model (s : st) =
     String.concat "," (List.map (fun (o, rt) -> string_of_int o ^ (if rt then "r" else "")) r) ^ ";" ^
     Printf.sprintf "%d,%d,%d" (int_of_nat (lc_nitems s)) (int_of_nat s.mitems) (if s.running then 1 else 0) in
   led ^ ";" ^ tail ^ (if s.bad then ";BAD" else "") ^ (if s.oof then ";OOF" else "")
-let dump_spec (s : sp) =
-  String.concat "," (List.map string_of_int (sorted_ids s.s_must)) ^ (if s.s_bad then ";BAD" else "")
+(* spec step:  <must: finalised exactly once by now>/<kept: roots only del_root may finalise>[;BAD] *)
+let dump_spec ((s, k) : sp * (nat list * nat list)) =
+  let kept = List.filter (fun o -> not (lc_s_in (snd k) o)) (fst k) in
+  String.concat "," (List.map string_of_int (sorted_ids s.s_must)) ^ "/" ^
+  String.concat "," (List.map string_of_int (sorted_ids kept)) ^ (if s.s_bad then ";BAD" else "")
 let () =
   let mode = Sys.argv.(1) in
-  if mode = "params" then
+  if mode = "rule" then
+    (* the collection threshold rule of the tree, tabulated for the generator's own simulation *)
+    print_endline (String.concat " " (List.init 1500 (fun i -> string_of_int (int_of_nat (lc_rule (nat_of_int i))))))
+  else if mode = "params" then
     Printf.printf "rem_fix=%b sweep_fix=%b defer_fix=%b shape=%b main_atexit=%b main_after_return=%b error_exits=%b\n" lc_rem_fix lc_sweep_fix lc_defer_fix lc_shape lc_main_atexit lc_main_after lc_err_exit
   else
   read_lines (fun line ->
@@ -134,16 +140,18 @@ let () =
               let (s', tag) = model_token s t in
               sep (); Buffer.add_string buf (tag ^ ";" ^ dump_model s'); s') lc_init ops in ()
         end else begin
-          let _ = List.fold_left (fun s o ->
+          let _ = List.fold_left (fun (s, k) o ->
             if o.[0] = 'T' then begin
               (* the specification: every way of ending the program is a teardown *)
               let s' = lc_sp_step s (ETeardown []) in
-              sep (); Buffer.add_string buf (dump_spec s'); s' end else
+              sep (); Buffer.add_string buf (dump_spec (s', k)); (s', k) end else
             match parse_op o with
-            | None -> s
+            | None -> (s, k)
             | Some t ->
-              let s' = lc_sp_step s (t.mk ([], [])) in
-              sep (); Buffer.add_string buf (dump_spec s'); s') lc_sp_init ops in ()
+              let e = t.mk ([], []) in
+              let s' = lc_sp_step s e in
+              let k' = lc_keep_step k e in
+              sep (); Buffer.add_string buf (dump_spec (s', k')); (s', k')) (lc_sp_init, ([], [])) ops in ()
         end
       with Failure m -> (sep (); Buffer.add_string buf ("BADCASE " ^ m)));
       print_endline (Buffer.contents buf)
